@@ -110,7 +110,9 @@ def main():
             reqs = sorted(reqs)
             if T == "quick":
                 reqs = rng.sample(reqs, 260)
-            nlong = 350 if T == "quick" else 6000
+            else:
+                reqs = rng.sample(reqs, min(len(reqs), 2500))      # (all of them took half an hour of model evaluation)
+            nlong = 350 if T == "quick" else 1500
             for _ in range(nlong):
                 L = rng.randint(3, 5)
                 reqs.append("/" + "/".join(rng.choice(allsegs if rng.random() < 0.7 else ["..", "..", rootname + "2", "s.txt", "sub"])
